@@ -64,7 +64,7 @@ Definition get_store (s : atomic_state) (i : nat) : astore :=
 
 Definition at_set_stores (s : atomic_state) (st : list astore) (cnt : nat) : atomic_state :=
   mkAtomic (at_loaded s) (at_unsync_loaded s) (at_stored s) (at_unsync_mut s)
-           (at_mutating s) (at_last s) (at_last_nonload s) st cnt.
+           (at_mutating s) (at_last_loads s) (at_last_nonload s) st cnt.
 
 Definition st_set_mo (x : astore) (mo : vv) : astore :=
   mkStore (st_value x) (st_hb x) mo (st_sync x) (st_seen x) (st_seqcst x).
@@ -79,7 +79,7 @@ Definition track_load (s : atomic_state) (caus : vv) : atomic_state + panic :=
   else match vv_ahead caus (at_unsync_mut s) with
   | Some _ => inr (PanicCausality CLoadMut)
   | None => inl (mkAtomic (vv_join (at_loaded s) caus) (at_unsync_loaded s) (at_stored s)
-                   (at_unsync_mut s) (at_mutating s) (at_last s) (at_last_nonload s)
+                   (at_unsync_mut s) (at_mutating s) (at_last_loads s) (at_last_nonload s)
                    (at_stores s) (at_cnt s))
   end.
 
@@ -91,7 +91,7 @@ Definition track_unsync_load (s : atomic_state) (caus : vv) : atomic_state + pan
   match vv_ahead caus (at_stored s) with
   | Some _ => inr (PanicCausality CUnsyncLoadStore)
   | None => inl (mkAtomic (at_loaded s) (vv_join (at_unsync_loaded s) caus) (at_stored s)
-                   (at_unsync_mut s) (at_mutating s) (at_last s) (at_last_nonload s)
+                   (at_unsync_mut s) (at_mutating s) (at_last_loads s) (at_last_nonload s)
                    (at_stores s) (at_cnt s))
   end end.
 
@@ -103,7 +103,7 @@ Definition track_store (s : atomic_state) (caus : vv) : atomic_state + panic :=
   match vv_ahead caus (at_unsync_loaded s) with
   | Some _ => inr (PanicCausality CStoreUnsyncLoad)
   | None => inl (mkAtomic (at_loaded s) (at_unsync_loaded s) (vv_join (at_stored s) caus)
-                   (at_unsync_mut s) (at_mutating s) (at_last s) (at_last_nonload s)
+                   (at_unsync_mut s) (at_mutating s) (at_last_loads s) (at_last_nonload s)
                    (at_stores s) (at_cnt s))
   end end.
 
@@ -121,7 +121,7 @@ Definition track_unsync_mut (s : atomic_state) (caus : vv) : atomic_state + pani
   match vv_ahead caus (at_unsync_mut s) with
   | Some _ => inr (PanicCausality CMutMut)
   | None => inl (mkAtomic (at_loaded s) (at_unsync_loaded s) (at_stored s)
-                   (vv_join (at_unsync_mut s) caus) (at_mutating s) (at_last s)
+                   (vv_join (at_unsync_mut s) caus) (at_mutating s) (at_last_loads s)
                    (at_last_nonload s) (at_stores s) (at_cnt s))
   end end end end.
 
@@ -139,7 +139,7 @@ Definition atomic_store (s : atomic_state) (me : nat) (caus released : vv)
                 (S (at_cnt s)).
 
 Definition atomic_new (me : nat) (caus released : vv) (value : N) : atomic_state + panic :=
-  let s0 := mkAtomic vv_new vv_new vv_new vv_new false None None
+  let s0 := mkAtomic vv_new vv_new vv_new vv_new false (repeat None MAX_THREADS) None
                      (repeat store_default MAX_ATOMIC_HISTORY) 0 in
   match track_unsync_mut s0 caus with
   | inr p => inr p
@@ -279,17 +279,21 @@ Definition atomic_rmw (s : atomic_state) (me : nat) (caus released : vv) (index 
   end.
 
 (* ---- fences ---- *)
+(* FirstSeen::is_read_by_current: the active thread itself has loaded the store *)
+Definition is_read_by_current (seen : list (option nat)) (me : nat) : bool :=
+  match nth_error seen me with Some (Some _) => true | _ => false end.
+
 (* fence_acq over one atomic: visit its stores in stores_mut order *)
-Definition fence_acq_atomic (s : atomic_state) (caus : vv) : vv :=
+Definition fence_acq_atomic (s : atomic_state) (me : nat) (caus : vv) : vv :=
   fold_left
     (fun c i =>
        let x := get_store s i in
-       if is_seen_by_current (st_seen x) c then vv_join c (st_sync x) else c)
+       if is_read_by_current (st_seen x) me then vv_join c (st_sync x) else c)
     (stores_order (at_cnt s)) caus.
 
-Definition fence_acq (objs : list object) (caus : vv) : vv :=
+Definition fence_acq (objs : list object) (me : nat) (caus : vv) : vv :=
   fold_left
-    (fun c o => match o with OAtomic s => fence_acq_atomic s c | _ => c end)
+    (fun c o => match o with OAtomic s => fence_acq_atomic s me c | _ => c end)
     objs caus.
 
 (* ---- rt/cell.rs ---- *)
